@@ -298,12 +298,14 @@ def c03(tier, seed):
         return [sized("C03", tier, "sized_uniq_q", ops, 3, 2, 1),
                 mm("C03", tier, "mm_uniq_q", [("c03_2x3", mops, 2, 3, 2, False), ("c03_3x2", mops, 3, 2, 1, False)]),
                 tr("C03", tier, "threads_q", seed), inj("C03", tier), thin("C03", tier, "thin_uniq_" + tier[0], THIN_OPS, 3 if tier == "quick" else 4, 2, 1, 1),
-            stage(CT.ctor_stage, "C03", tier, "zst_" + tier[0], ["zst"], True, only_cats=["verdict", "panicked", "crash"])] + swaps("C03", tier, seed, hows=("init", "thin"))
+            stage(CT.ctor_stage, "C03", tier, "zst_" + tier[0], ["zst"], True, only_cats=["verdict", "panicked", "crash"]),
+            stage(LY.surface_stage, "C03", tier, "surface_" + tier[0])] + swaps("C03", tier, seed, hows=("init", "thin"))
     return [sized("C03", tier, "sized_uniq_t", ops + ["Unsize", "IntoRawDyn", "FromRawDyn"], 4, 2, 1),
             mm("C03", tier, "mm_uniq_t", [("c03_2x4", mops, 2, 4, 2, False), ("c03_3x3", mops, 3, 3, 1, False),
                                           ("c03_3x2h", mops, 3, 2, 1, True)]),
             tr("C03", tier, "threads_t", seed), inj("C03", tier), thin("C03", tier, "thin_uniq_" + tier[0], THIN_OPS, 3 if tier == "quick" else 4, 2, 1, 1),
-            stage(CT.ctor_stage, "C03", tier, "zst_" + tier[0], ["zst"], True, only_cats=["verdict", "panicked", "crash"])] + swaps("C03", tier, seed, hows=("init", "thin"))
+            stage(CT.ctor_stage, "C03", tier, "zst_" + tier[0], ["zst"], True, only_cats=["verdict", "panicked", "crash"]),
+            stage(LY.surface_stage, "C03", tier, "surface_" + tier[0])] + swaps("C03", tier, seed, hows=("init", "thin"))
 
 
 def c04(tier, seed):
@@ -336,14 +338,16 @@ def c08(tier, seed):
                 sized("C08", tier, "sized_cow_plain_q", BASE + COW + ["GetMut", "IntoOff", "FromOff"], 3, 3, 1, hows=("new", "newB"), harness_cfg="p", cats=PLAIN_CATS),
                 mm("C08", tier, "mm_cow_q", [("c08_2x3", mops, 2, 3, 2, False), ("c08_3x2", mops, 3, 2, 1, False)]),
                 tr("C08", tier, "threads_q", seed), inj("C08", tier), lay("C08", tier, "layout_matrix_q"),
-            stage(CT.ctor_stage, "C08", tier, "zst_q", ["zst"], True, only_cats=["verdict", "ncl", "drops", "leak", "panicked", "crash"])] + swaps("C08", tier, seed, hows=("init",))
+            stage(CT.ctor_stage, "C08", tier, "zst_q", ["zst"], True, only_cats=["verdict", "ncl", "drops", "leak", "panicked", "crash"]),
+            stage(LY.surface_stage, "C08", tier, "surface_q")] + swaps("C08", tier, seed, hows=("init",))
     return [sized("C08", tier, "sized_cow_t", ops, 4, 3, 1, hows=("new", "newB")),
             sized("C08", tier, "sized_cow_plain_t", ops, 3, 3, 1, hows=("new", "newB"), harness_cfg="p", cats=PLAIN_CATS),
             mm("C08", tier, "mm_cow_t", [("c08_2x4", mops, 2, 4, 2, False), ("c08_3x2", mops, 3, 2, 2, False),
                                          # three threads x three calls without the plain read (270 M states with it: an hour)
                                          ("c08_3x3", ["clone", "drop", "make_mut"], 3, 3, 1, False)]),
             tr("C08", tier, "threads_t", seed), inj("C08", tier), lay("C08", tier, "layout_matrix_t"),
-            stage(CT.ctor_stage, "C08", tier, "zst_t", ["zst"], True, only_cats=["verdict", "ncl", "drops", "leak", "panicked", "crash"])] + swaps("C08", tier, seed, hows=("init",))
+            stage(CT.ctor_stage, "C08", tier, "zst_t", ["zst"], True, only_cats=["verdict", "ncl", "drops", "leak", "panicked", "crash"]),
+            stage(LY.surface_stage, "C08", tier, "surface_t")] + swaps("C08", tier, seed, hows=("init",))
 
 
 def c09(tier, seed):
@@ -402,6 +406,8 @@ def any_replay(p, v):
         return S.replay_graph_violation(p, v)
     if v.get("key", "").startswith("width:"):
         return LY.replay_widths(p, v)
+    if v.get("key", "").startswith("surface:"):
+        return ["[tlc] " + e for x in LY.surface_stage(p, "quick", "replay")["violations"] for e in x["errors"]]
     if v.get("key", "").startswith(("matrix:", "crash-in-matrix")):
         return LY.replay_layout(p, v)
     if v.get("key", "").startswith(("ctor:", "allocfail:", "crash-in-ctor")):
